@@ -106,18 +106,19 @@ def K(prefix, **kw):
     return d
 
 _PT = dict(extra=["-Z", "stubbing", "-Z", "unstable-options", "--cbmc-args", "--max-field-sensitivity-array-size", "512"],
-           own_labels_only=True, jobs=12, mem_gb=16,
-           stubs=["S-zero: PageTable::zero -> whole-table assignment (the real zero() is verified in C08); native replays run the real one"],
+           own_labels_only=True, jobs=12, mem_gb=16, harness_timeout=900,
+           stubs=["S-zero: PageTable::zero -> whole-table assignment (the real zero() is verified in C08); native replays run the real one",
+                  "S-ptr (ptr_*_nr only): VirtAddr::as_ptr -> 4-level hardware walk of the pool for the accessed virtual address (software MMU)"],
            trusted_base=["rustc->Kani->CBMC", "CaDiCaL", "overlay O1-O4", "hw_walk oracle (harness/src/structures/paging/mapper/verif_mapper/mod.rs, from SDM vol.3A 4.5)"],
            assumptions=["regime R2- (DESIGN.md 3.5): virtual addresses, which path slots are links, the flags of existing parent entries, the parent_table_flags argument and the allocator failure position are CONCRETE per harness instance (boundary menu); symbolic: contents of the entry that ends the path, all neighbouring entries, stale bytes of free frames, the frame and leaf-flags arguments",
                         "pre-states satisfy the well-formedness invariant WF (tree-shaped hierarchy of pool frames, leaf/parent entries zero or PRESENT, huge leaves size-aligned, leaf frames outside the pool)",
                         "leaf flags are drawn from bits 0-11 and 52-63 (bit 12 = PAT of huge leaves is excluded, see known finding F3)",
-                        "MappedPageTable with a pool frame mapping only; OffsetPageTable/RecursivePageTable are not driven (their address arithmetic is decided in C20/C03)"])
+                        "MappedPageTable with a pool frame mapping (natively replayable) and RecursivePageTable through the S-ptr stub = software MMU over the pool (CBMC-only, `_nr`); OffsetPageTable = MappedPageTable + `offset + frame` (decided for all values in c09_offset_*)"])
 
 def PT(prop, own, **kw):
     d = K(own, **_PT)
-    d["filters_quick"] = ["pt_", own + "_"] + (["c10_range_p1_unaligned_window"] if prop == "C01" else [])
-    d["filters_thorough"] = ["pt_", "ptt_", own + "_", own + "t_"]
+    d["filters_quick"] = ["pt_", "ptr_", own + "_"] + (["c10_range_p1_unaligned_window"] if prop == "C01" else [])
+    d["filters_thorough"] = ["pt_", "ptt_", "ptr_", "ptrt_", own + "_", own + "t_"] + (["c10_range_p1_unaligned_window"] if prop == "C01" else [])
     d.update(kw)
     return d
 
